@@ -587,6 +587,23 @@ def _expand_stmt(model, caller: FuncInfo, st, inventory) -> Optional[list]:
             out.append(ast.copy_location(ast.Expr(value=rets[0].value), st))
         return out or [ast.copy_location(ast.Pass(), st)]
     if _return_in_loop(ast.Module(body=body, type_ignores=[])):
+        # a search helper: `<prefix without returns>; for ..: .. if c: return X ..; return Y` -> the loop with `target = X; break` and the
+        # fall-through in the loop's `else:` (exactly Python's for/else: the else runs when the loop was not left by break)
+        loops = [i for i, b_ in enumerate(body) if isinstance(b_, (ast.For, ast.While))]
+        if len(loops) == 1 and not body[loops[0]].orelse and not _returns(ast.Module(body=body[:loops[0]], type_ignores=[])):
+            lp = body[loops[0]]
+            tail = body[loops[0] + 1:]
+            nested = any(isinstance(x, (ast.For, ast.While, ast.AsyncFor, ast.Try, ast.With)) for b_ in lp.body for x in ast.walk(b_))
+            tail_ok = (not tail) or (len(tail) == 1 and isinstance(tail[0], ast.Return))
+            if not nested and tail_ok and not _has_loop_exit(lp.body) and not (isinstance(lp, ast.While) and isinstance(lp.test, ast.Constant)):
+                lp.body = _replace_returns(lp.body, target, st)
+                tv = tail[0].value if tail and tail[0].value is not None else ast.Constant(value=None)
+                if target is not None:
+                    lp.orelse = _assign(target, tv, st)
+                elif tail and tail[0].value is not None and not isinstance(tail[0].value, (ast.Constant, ast.Name)):
+                    lp.orelse = [ast.copy_location(ast.Expr(value=tail[0].value), st)]
+                ast.fix_missing_locations(lp)
+                return prologue + body[:loops[0]] + [lp]
         return None
     falls = _can_fall_off(body)
     inner = _replace_returns(body, target, st)
@@ -3482,6 +3499,15 @@ class _CanonNot(ast.NodeTransformer):
                 return ast.copy_location(ast.If(test=pos, body=n.orelse, orelse=n.body), n)
         return n
 
+    def visit_Assign(self, n):
+        self.generic_visit(n)
+        # `a, b = True, False` (names on the left, literals on the right) -> one assignment each, in order (the pinned tree has no such tuple assignment)
+        if len(n.targets) == 1 and isinstance(n.targets[0], ast.Tuple) and isinstance(n.value, ast.Tuple) and len(n.targets[0].elts) == len(n.value.elts) >= 2 \
+                and all(isinstance(t, ast.Name) for t in n.targets[0].elts) and all(isinstance(v, ast.Constant) for v in n.value.elts):
+            self.changed = True
+            return [ast.copy_location(ast.Assign(targets=[ast.Name(id=t.id, ctx=ast.Store())], value=v), n) for t, v in zip(n.targets[0].elts, n.value.elts)]
+        return n
+
     def visit_Delete(self, n):
         # `del xs[-1]` -> `xs.pop()` (same effect on a list; the pinned tree pops)
         if len(n.targets) == 1 and isinstance(n.targets[0], ast.Subscript):
@@ -3494,6 +3520,11 @@ class _CanonNot(ast.NodeTransformer):
 
     def visit_Compare(self, n):
         self.generic_visit(n)
+        # `i + 1 == n` -> `i == n - 1` (ints; the pinned tree writes the offset on the right)
+        if len(n.ops) == 1 and isinstance(n.ops[0], (ast.Eq, ast.NotEq)) and isinstance(n.left, ast.BinOp) and isinstance(n.left.op, ast.Add) and isinstance(n.left.right, ast.Constant) \
+                and type(n.left.right.value) is int and isinstance(n.comparators[0], ast.Call) and isinstance(n.comparators[0].func, ast.Name) and n.comparators[0].func.id == "len":
+            self.changed = True
+            return ast.copy_location(ast.Compare(left=n.left.left, ops=n.ops, comparators=[ast.BinOp(left=n.comparators[0], op=ast.Sub(), right=n.left.right)]), n)
         # a literal on the left of a symmetric comparison: `"x" == e` -> `e == "x"` (the pinned tree writes the literal on the right)
         if len(n.ops) == 1 and isinstance(n.ops[0], (ast.Eq, ast.NotEq)) and isinstance(n.left, ast.Constant) and not isinstance(n.comparators[0], ast.Constant):
             self.changed = True
@@ -3540,11 +3571,63 @@ class _CanonNot(ast.NodeTransformer):
         return ast.copy_location(ast.Compare(left=e.left, ops=[self.NEG[type(e.ops[0])]()], comparators=e.comparators), e)
 
 
+def _local_defs_to_lambdas(tree) -> bool:
+    """A nested `def g(x): return <expr>` (no decorators, defaults, annotations that matter, docstring) whose name is read exactly once, as a
+    value (not called), in the enclosing function -> that one read becomes `lambda x: <expr>` and the def goes.  Only `__name__` differs.
+    The pinned tree has no such def (checked: the pass is the identity on it)."""
+    changed = False
+    for fn in [n for n in ast.walk(tree) if isinstance(n, (ast.FunctionDef, ast.AsyncFunctionDef))]:
+        for blk_owner in list(ast.walk(fn)):
+            for fld in ("body", "orelse", "finalbody"):
+                blk = getattr(blk_owner, fld, None)
+                if not isinstance(blk, list):
+                    continue
+                for d in list(blk):
+                    if not (isinstance(d, ast.FunctionDef) and d is not fn and not d.decorator_list and len(d.body) == 1 and isinstance(d.body[0], ast.Return) and d.body[0].value is not None):
+                        continue
+                    a = d.args
+                    if a.defaults or a.kw_defaults or a.vararg or a.kwarg or a.kwonlyargs or a.posonlyargs:
+                        continue
+                    refs = [n for n in ast.walk(fn) if isinstance(n, ast.Name) and n.id == d.name]
+                    if len(refs) != 1 or not isinstance(refs[0].ctx, ast.Load):
+                        continue
+                    # the name has this one binding only (no second def of the same name on another branch, no parameter of that name)
+                    if sum(1 for n in ast.walk(fn) if isinstance(n, (ast.FunctionDef, ast.AsyncFunctionDef, ast.ClassDef)) and n.name == d.name) != 1 or \
+                            any(isinstance(n, ast.arg) and n.arg == d.name for n in ast.walk(fn)):
+                        continue
+                    parents = {}
+                    for p_ in ast.walk(fn):
+                        for c_ in ast.iter_child_nodes(p_):
+                            parents[id(c_)] = p_
+                    par = parents.get(id(refs[0]))
+                    if isinstance(par, ast.Call) and par.func is refs[0]:
+                        continue  # called directly: leave it to the inliner
+                    if any(isinstance(n, (ast.Yield, ast.YieldFrom, ast.Await)) for n in ast.walk(d)):
+                        continue
+                    lam = ast.copy_location(ast.Lambda(args=ast.arguments(posonlyargs=[], args=[ast.arg(arg=x.arg) for x in a.args], kwonlyargs=[], kw_defaults=[], defaults=[]), body=d.body[0].value), refs[0])
+                    for f_, v_ in ast.iter_fields(par):
+                        if v_ is refs[0]:
+                            setattr(par, f_, lam)
+                        elif isinstance(v_, list):
+                            for i_, x_ in enumerate(v_):
+                                if x_ is refs[0]:
+                                    v_[i_] = lam
+                    blk.remove(d)
+                    if not blk:
+                        blk.append(ast.copy_location(ast.Pass(), d))
+                    changed = True
+    if changed:
+        ast.fix_missing_locations(tree)
+    return changed
+
+
 def canonical_spellings(model) -> bool:
     changed = False
     for mod in model.modules.values():
         if mod.short.startswith("_typeguard"):
             continue
+        if _local_defs_to_lambdas(mod.tree):
+            changed = True
         tr = _CanonNot()
         tr.visit(mod.tree)
         if tr.changed:
@@ -4507,4 +4590,113 @@ def desugar_walrus(model, changed: set) -> list:
                     break
             if not progressed:
                 break
+    return done
+
+
+def desugar_next_search(model, changed: set) -> list:
+    """`v = next((ELT for T in IT if COND), DEFAULT)` (a statement of a changed function) -> the search loop it stands for:
+    `for T in IT: if COND: v = ELT; break` / `else: v = DEFAULT`."""
+    done = []
+    for q in sorted(changed):
+        f = model.functions.get(q)
+        if f is None or not isinstance(f.node, (ast.FunctionDef, ast.AsyncFunctionDef)):
+            continue
+
+        def rewrite(stmts):
+            out, ch = [], False
+            for st in stmts:
+                for fld in ("body", "orelse", "finalbody"):
+                    sub = getattr(st, fld, None)
+                    if isinstance(sub, list) and sub and isinstance(sub[0], ast.stmt) and not isinstance(st, (ast.FunctionDef, ast.AsyncFunctionDef, ast.ClassDef)):
+                        new, c2 = rewrite(sub)
+                        setattr(st, fld, new)
+                        ch = ch or c2
+                v = st.value if isinstance(st, ast.Assign) and len(st.targets) == 1 and isinstance(st.targets[0], ast.Name) else None
+                if isinstance(v, ast.Call) and isinstance(v.func, ast.Name) and v.func.id == "next" and len(v.args) == 2 and not v.keywords and isinstance(v.args[0], ast.GeneratorExp) \
+                        and len(v.args[0].generators) == 1 and not v.args[0].generators[0].is_async and _simple(v.args[1]):
+                    g = v.args[0].generators[0]
+                    it = g.iter
+                    # the iterable may be a local bound once just before to a call (`body = enumerate(node.body)`): use that call
+                    if isinstance(it, ast.Name) and out and isinstance(out[-1], ast.Assign) and len(out[-1].targets) == 1 and isinstance(out[-1].targets[0], ast.Name) \
+                            and out[-1].targets[0].id == it.id and sum(1 for x in ast.walk(f.node) if isinstance(x, ast.Name) and x.id == it.id) == 2:
+                        it = out.pop().value
+                    cond = g.ifs[0] if len(g.ifs) == 1 else ast.BoolOp(op=ast.And(), values=list(g.ifs)) if g.ifs else ast.Constant(value=True)
+                    hit = [ast.Assign(targets=[ast.Name(id=st.targets[0].id, ctx=ast.Store())], value=v.args[0].elt), ast.Break()]
+                    loop = ast.For(target=g.target, iter=it, body=[ast.If(test=cond, body=hit, orelse=[])] if g.ifs else hit,
+                                   orelse=[ast.Assign(targets=[ast.Name(id=st.targets[0].id, ctx=ast.Store())], value=v.args[1])])
+                    out.append(ast.fix_missing_locations(ast.copy_location(loop, st)))
+                    ch = True
+                    continue
+                out.append(st)
+            return out, ch
+
+        new, ch = rewrite(f.node.body)
+        if ch:
+            f.node.body = new
+            ast.fix_missing_locations(f.node)
+            done.append(q)
+    return done
+
+
+def sink_found_actions(model, changed: set) -> list:
+    """`for ..: .. if c: v = E; break` / `else: v = None`, directly followed by `if v is not None: S` (no else), with E the counter of an
+    `enumerate` / `range` loop (an int: never None) -> S moves to the break site (`v = E; S; break`), the test after the loop goes: the same
+    statements run in the same order on both outcomes of the search."""
+    done = []
+    for q in sorted(changed):
+        f = model.functions.get(q)
+        if f is None or not isinstance(f.node, (ast.FunctionDef, ast.AsyncFunctionDef)):
+            continue
+
+        def rewrite(stmts):
+            ch = False
+            i = 0
+            while i < len(stmts):
+                st = stmts[i]
+                for fld in ("body", "orelse", "finalbody"):
+                    sub = getattr(st, fld, None)
+                    if isinstance(sub, list) and sub and isinstance(sub[0], ast.stmt) and not isinstance(st, (ast.FunctionDef, ast.AsyncFunctionDef, ast.ClassDef)):
+                        ch = rewrite(sub) or ch
+                nxt = stmts[i + 1] if i + 1 < len(stmts) else None
+                if isinstance(st, ast.For) and len(st.orelse) == 1 and isinstance(st.orelse[0], ast.Assign) and len(st.orelse[0].targets) == 1 and isinstance(st.orelse[0].targets[0], ast.Name) \
+                        and isinstance(st.orelse[0].value, ast.Constant) and st.orelse[0].value.value is None and isinstance(nxt, ast.If) and not nxt.orelse:
+                    v = st.orelse[0].targets[0].id
+                    t = nxt.test
+                    if isinstance(t, ast.Compare) and len(t.ops) == 1 and isinstance(t.ops[0], ast.IsNot) and isinstance(t.left, ast.Name) and t.left.id == v \
+                            and isinstance(t.comparators[0], ast.Constant) and t.comparators[0].value is None:
+                        # the counter of the loop
+                        counter = None
+                        if isinstance(st.iter, ast.Call) and isinstance(st.iter.func, ast.Name) and st.iter.func.id == "enumerate" and isinstance(st.target, ast.Tuple) and isinstance(st.target.elts[0], ast.Name):
+                            counter = st.target.elts[0].id
+                        elif isinstance(st.iter, ast.Call) and isinstance(st.iter.func, ast.Name) and st.iter.func.id == "range" and isinstance(st.target, ast.Name):
+                            counter = st.target.id
+                        sites = []
+                        for par in ast.walk(st):
+                            for fld in ("body", "orelse"):
+                                blk = getattr(par, fld, None)
+                                if isinstance(blk, list) and par is not st or (par is st and fld == "body"):
+                                    if isinstance(blk, list):
+                                        for k_, x in enumerate(blk):
+                                            if isinstance(x, ast.Assign) and len(x.targets) == 1 and isinstance(x.targets[0], ast.Name) and x.targets[0].id == v and x is not st.orelse[0]:
+                                                sites.append((blk, k_, x))
+                        ok = counter is not None and len(sites) == 1 and isinstance(sites[0][2].value, ast.Name) and sites[0][2].value.id == counter \
+                            and sites[0][1] + 1 < len(sites[0][0]) and isinstance(sites[0][0][sites[0][1] + 1], ast.Break) \
+                            and not any(isinstance(x, (ast.Break, ast.Continue, ast.Return)) for b_ in nxt.body for x in ast.walk(b_))
+                        if ok:
+                            blk, k_, _ = sites[0]
+                            if not any(isinstance(x, ast.Name) and x.id in (v, counter) and isinstance(x.ctx, (ast.Store, ast.Del)) for b_ in nxt.body for x in ast.walk(b_)):
+                                # at the break site `v` is the counter: read it as such
+                                for b_ in nxt.body:
+                                    for x in ast.walk(b_):
+                                        if isinstance(x, ast.Name) and x.id == v and isinstance(x.ctx, ast.Load):
+                                            x.id = counter
+                            blk[k_ + 1:k_ + 1] = nxt.body
+                            del stmts[i + 1]
+                            ch = True
+                i += 1
+            return ch
+
+        if rewrite(f.node.body):
+            ast.fix_missing_locations(f.node)
+            done.append(q)
     return done
